@@ -6,12 +6,52 @@ use zvt_builder::ZvtSerializer;
 use zvt_verif_harness::debugparse::canon;
 use zvt_verif_harness::*;
 
+// ---- counting allocator: peak heap growth during one decode call (C02: bounded allocation)
+use std::alloc::{GlobalAlloc, Layout, System};
+use std::sync::atomic::{AtomicBool, AtomicUsize, Ordering};
+struct Counting;
+static CUR: AtomicUsize = AtomicUsize::new(0);
+static PEAK: AtomicUsize = AtomicUsize::new(0);
+static MEASURE: AtomicBool = AtomicBool::new(false);
+unsafe impl GlobalAlloc for Counting {
+    unsafe fn alloc(&self, l: Layout) -> *mut u8 {
+        let c = CUR.fetch_add(l.size(), Ordering::Relaxed) + l.size();
+        PEAK.fetch_max(c, Ordering::Relaxed);
+        System.alloc(l)
+    }
+    unsafe fn dealloc(&self, p: *mut u8, l: Layout) {
+        CUR.fetch_sub(l.size(), Ordering::Relaxed);
+        System.dealloc(p, l)
+    }
+}
+#[global_allocator]
+static A: Counting = Counting;
+
+fn measure_struct<T>(bs: &[u8]) -> String
+where
+    T: ZvtSerializer + Debug,
+    encoding::Default: Encoding<T>,
+{
+    let bs = bs.to_vec();
+    guarded(move || {
+        let base = CUR.load(Ordering::Relaxed);
+        PEAK.store(base, Ordering::Relaxed);
+        let r = T::zvt_deserialize(&bs);
+        let peak = PEAK.load(Ordering::Relaxed);
+        drop(r);
+        format!("alloc {}", peak - base)
+    })
+}
+
 fn run_struct<T>(bs: &[u8]) -> String
 where
     T: ZvtSerializer + Debug,
     encoding::Default: Encoding<T>,
 {
     let bs = bs.to_vec();
+    if MEASURE.load(Ordering::Relaxed) {
+        return measure_struct::<T>(&bs);
+    }
     guarded(move || match T::zvt_deserialize(&bs) {
         Ok((v, rem)) => {
             let val = canon(&format!("{:?}", v));
@@ -32,9 +72,54 @@ fn show_variant<T: Debug>(i: usize, p: &T) -> String {
 
 include!("../gen_dispatch.rs");
 
+fn one(is_struct: bool, name: &str, bs: &[u8]) -> String {
+    if is_struct {
+        dispatch_struct(name, bs).unwrap_or_else(|| "NoSuchType".to_string())
+    } else {
+        let (name, bs) = (name.to_string(), bs.to_vec());
+        guarded(move || dispatch_enum(&name, &bs).unwrap_or_else(|| "NoSuchType".to_string()))
+    }
+}
+
 fn main() {
     silence_panics();
+    start_watchdog(10);
     run_cases(|f, emit| match f[0] {
+        // deca <abs struct name> <hex>: peak heap growth of the decode call
+        "deca" => {
+            MEASURE.store(true, Ordering::Relaxed);
+            let r = dispatch_struct(f[1], &unhex(f[2])).unwrap_or_else(|| "NoSuchType".to_string());
+            MEASURE.store(false, Ordering::Relaxed);
+            emit(r)
+        }
+        // dec_all|enum_all <name> <prefix hex> <k>: prefix followed by every k-byte string
+        "dec_all" | "enum_all" => {
+            let prefix = unhex(f[2]);
+            let k: u32 = f[3].parse().unwrap();
+            for i in 0..(1u64 << (8 * k)) {
+                let mut bs = prefix.clone();
+                bs.extend((0..k).map(|j| (i >> (8 * (k - 1 - j))) as u8));
+                emit(one(f[0] == "dec_all", f[1], &bs));
+            }
+        }
+        // dec_trunc|enum_trunc <name> <hex>: every proper prefix
+        "dec_trunc" | "enum_trunc" => {
+            let bs = unhex(f[2]);
+            for n in 0..bs.len() {
+                emit(one(f[0] == "dec_trunc", f[1], &bs[..n]));
+            }
+        }
+        // dec_subst|enum_subst <name> <hex>: every single-byte substitution
+        "dec_subst" | "enum_subst" => {
+            let bs = unhex(f[2]);
+            for off in 0..bs.len() {
+                for v in 0..=255u8 {
+                    let mut b2 = bs.clone();
+                    b2[off] = v;
+                    emit(one(f[0] == "dec_subst", f[1], &b2));
+                }
+            }
+        }
         // dec <abs struct name> <hex>
         "dec" => emit(dispatch_struct(f[1], &unhex(f[2])).unwrap_or_else(|| "NoSuchType".to_string())),
         // enum <abs enum name> <hex>
